@@ -27,13 +27,22 @@ inductive Tok where
   | lbrack | rbrack | lbrace | rbrace | lparen | rparen | eq | semi | minus
 deriving DecidableEq, Repr, Inhabited
 
-/-- The data a text denotes. Floats are kept as (sign, literal text): two floats are the same when
-    they are written with the same decimal literal. -/
+/-- The real number a decimal literal denotes, `mant × 10^exp`, in normal form: `mant` has no
+    trailing zero and zero is `⟨0, 0⟩`, so two literals denote the same number exactly when their
+    `Dec`s are equal (`1e+16`, `1.0e+16`, `10000000000000000.0` are all `⟨1, 16⟩`). -/
+structure Dec where
+  mant : Nat
+  exp : Int
+deriving DecidableEq, Repr, Inhabited
+
+/-- The data a text denotes. Floats are kept as (sign, the real number the literal denotes): two
+    floats are the same when their literals denote the same number (Nix and Python both round that
+    number to the nearest double). The sign is kept apart so that `-0.0` is not `0.0`. -/
 inductive Data where
   | null
   | bool (b : Bool)
   | int (i : Int)
-  | float (neg : Bool) (tok : Text)
+  | float (neg : Bool) (val : Dec)
   | str (s : Text)
   | list (xs : List Data)
   | attrs (kvs : List (Text × Data))
@@ -79,6 +88,32 @@ def isNixFloat (t : Text) : Bool :=
       ((match ip with | c :: _ => c != '0' | [] => false)       -- [1-9][0-9]*\.[0-9]*
         || ((ip.isEmpty || ip == ['0']) && !fp.isEmpty))       -- 0?\.[0-9]+
   | _ => false
+
+/-- strip trailing zeros of the mantissa (fuel: every step divides by ten) -/
+def decNormF : Nat → Nat → Int → Dec
+  | 0, m, e => ⟨m, e⟩
+  | f + 1, m, e => if m % 10 = 0 then decNormF f (m / 10) (e + 1) else ⟨m, e⟩
+
+/-- normal form of `m × 10^e` -/
+def decNorm (m : Nat) (e : Int) : Dec := if m = 0 then ⟨0, 0⟩ else decNormF m m e
+
+/-- `([Ee][+-]?[0-9]+)?` as an integer (0 when absent) -/
+def expValue : Text → Int
+  | [] => 0
+  | _ :: '+' :: ds => (Nat.ofDigitChars 10 ds 0 : Nat)
+  | _ :: '-' :: ds => - ((Nat.ofDigitChars 10 ds 0 : Nat) : Int)
+  | _ :: ds => (Nat.ofDigitChars 10 ds 0 : Nat)
+
+/-- The number a decimal literal `D* (. D*)? ([Ee][+-]?D+)?` denotes (FLOAT tokens of Nix and the
+    `repr` of a Python float are both of this form): the digits of the integer and fraction parts
+    as one mantissa, the exponent lowered by the number of fraction digits. -/
+def decValue (t : Text) : Dec :=
+  let ip := t.takeWhile isAsciiDigit
+  match t.dropWhile isAsciiDigit with
+  | '.' :: r =>
+    let fp := r.takeWhile isAsciiDigit
+    decNorm (Nat.ofDigitChars 10 (ip ++ fp) 0) (expValue (r.dropWhile isAsciiDigit) - (fp.length : Int))
+  | ex => decNorm (Nat.ofDigitChars 10 ip 0) (expValue ex)
 
 /-- From just after an opening `"`: the raw body up to the closing quote, and what follows it. -/
 def scanStr : Text → Option (Text × Text)
@@ -152,7 +187,7 @@ def pElem : Nat → List Tok → Option (Data × List Tok)
   | n + 1, ts =>
     match ts with
     | .int k :: r => some (.int k, r)
-    | .float t :: r => some (.float false t, r)
+    | .float t :: r => some (.float false (decValue t), r)
     | .str s :: r => some (.str s, r)
     | .ident s :: r =>
       if s = dTrue then some (.bool true, r)
@@ -182,7 +217,7 @@ def pValue : Nat → List Tok → Option (Data × List Tok)
   | n + 1, ts =>
     match ts with
     | .minus :: .int k :: r => some (.int (-(k : Int)), r)
-    | .minus :: .float t :: r => some (.float true t, r)
+    | .minus :: .float t :: r => some (.float true (decValue t), r)
     | _ => pElem n ts
 /-- `name = value;` bindings up to the closing brace -/
 def pBinds : Nat → List Tok → Option (List (Text × Data) × List Tok)
